@@ -52,6 +52,9 @@ var glUnits = []glUnit{
 		{"protocol/jt808", "JTMessage", "Decode"},
 		{"protocol/jt808", "Header", "Encode"},
 	}},
+	{"GoRtp", []glTarget{
+		{"protocol/jt1078", "Packet", "Decode"},
+	}},
 }
 
 type glFn struct {
